@@ -331,6 +331,14 @@ func (l *Link) SetFailIf(f func(Frame) error) { l.mu.Lock(); l.FailIf = f; l.mu.
 // SetBlockIf installs (or, with nil, removes) the BlockIf hook under the link's lock.
 func (l *Link) SetBlockIf(f func(Frame) bool) { l.mu.Lock(); l.BlockIf = f; l.mu.Unlock() }
 
+// ReaderParked reports that the other end is parked in Read with nothing available to it (frames held back
+// by the valve do not count): it has done whatever it does with the frames released so far.
+func (l *Link) ReaderParked() bool {
+	l.mu.Lock()
+	defer l.mu.Unlock()
+	return l.waiting > 0 && len(l.avail) == 0 && l.consumed == 0
+}
+
 // Writes reports how many Write calls went through (were not refused and are not blocked).
 func (l *Link) Writes() int { l.mu.Lock(); defer l.mu.Unlock(); return l.nwrite }
 
